@@ -18,13 +18,13 @@ OpsK(t) == [
   append_ca |-> {R([op |-> "append_ca", p |-> p, len |-> b]) : p \in {"Pab", "PX1024"}, b \in {0, 1, 2, MAX}}
                 \cup {R([op |-> "append_ca", p |-> "PX1025", len |-> b]) : b \in {1023, 1024, 1025}},
   append_pf |-> {R([op |-> "append_pf", k |-> "d", a |-> a]) : a \in {7, -12345}}
-                \cup {R([op |-> "append_pf", k |-> "s", a |-> p]) : p \in {"Ppct", "PX1023"}},
+                \cup {R([op |-> "append_pf", k |-> "s", a |-> p]) : p \in {"Ppct", "PX1021", "PX1022", "PX1023", "PX2046"}},     \* formatted "<...>": 1023, 1024, 1025, 2048 bytes
   insert    |-> {R([op |-> "insert", pos |-> q, p |-> p]) : q \in Positions(t), p \in Adds},
   insert_c  |-> {R([op |-> "insert_c", pos |-> q, c |-> c]) : q \in Positions(t), c \in {"c97", "c0"}},
   insert_ca |-> {R([op |-> "insert_ca", pos |-> q, p |-> "Pabc", len |-> b]) : q \in Positions(t), b \in {0, 1, 3, MAX}}
                 \cup {R([op |-> "insert_ca", pos |-> q, p |-> "PX1025", len |-> b]) : q \in Positions(t), b \in {1022, 1024, MAX}},
   insert_pf |-> {R([op |-> "insert_pf", pos |-> q, k |-> "d", a |-> 42]) : q \in Positions(t)}
-                \cup {R([op |-> "insert_pf", pos |-> q, k |-> "s", a |-> "Ppct"]) : q \in Positions(t)},
+                \cup {R([op |-> "insert_pf", pos |-> q, k |-> "s", a |-> p]) : q \in Positions(t), p \in {"Ppct", "PX1022"}},
   erase     |-> {R([op |-> "erase", pos |-> q, len |-> b]) : q \in Positions(t), b \in Lens(t)},
   copy      |-> {R([op |-> "copy", pos |-> q, len |-> b]) : q \in Positions(t), b \in Lens(t)},
   replace   |-> {R([op |-> "replace", pos |-> q, len |-> b, p |-> p, q |-> r]) :
